@@ -27,7 +27,7 @@ try:
         d0 = subprocess.run(["/venv/bin/python", os.path.abspath(demo)], cwd="/repo", env=dict(os.environ, PYTHONWARNINGS="ignore"), capture_output=True, text=True)
         d1 = subprocess.run(["/venv/bin/python", os.path.abspath(demo)], cwd=scratch, env=env, capture_output=True, text=True)
         res["demo_unpatched_rc"], res["demo_patched_rc"] = d0.returncode, d1.returncode
-    env2 = dict(env, VERIF_REPO=scratch, VERIF_TIER=tier)
+    env2 = dict(env, VERIF_REPO=scratch, VERIF_TIER=tier, VERIF_EVIDENCE_DIR=os.path.join(scratch, "evidence-trial"))
     c = subprocess.run(["./check", pid, "--tier", tier], cwd="/verif", env=env2, capture_output=True, text=True)
     viol = [l for l in c.stdout.splitlines() if l.startswith("VIOLATION")]
     res["check_rc"] = c.returncode
